@@ -353,6 +353,9 @@ func (un *Unit) frameObligations(fr *Frame, out *State) {
 	if un.contract == nil {
 		return
 	}
+	if _, noFrame := un.contract.Opts["no-frame"]; noFrame {
+		return
+	}
 	for _, c := range sortedKeys(out.heap) {
 		goal := un.frameFormula(c, out.heap[c])
 		if un.outside != "" {
